@@ -5,6 +5,7 @@ package harness
 import (
 	"fmt"
 	"io"
+	"slices"
 	"strings"
 	"testing"
 
@@ -563,4 +564,81 @@ func TestC20_P_OldStyleRepeatable(t *testing.T) {
 		ev.Case(fmt.Sprintf("%s probed=%v", fc.Writer, probed), old, fmt.Sprintf("noBlockSizes:%v", old), fmt.Sprintf("end-probed-between-reads:%v", probed))
 		ev.Sample(map[string]any{"file": fc.Desc, "blocks": len(first)})
 	})
+}
+
+// A shard with more child shards than any default-fanout shard can have (fanout 512 / 1024, thousands of entries), walked
+// repeatedly through one node object: whatever the node requests on the first and on the later walks, it requests the same
+// blocks in the same order in every run (nothing about it may depend on map iteration order), and the first walk is the
+// depth-first one.
+func TestC20_R_RepeatedWalksOfVeryWideShards(t *testing.T) {
+	for _, c := range []struct{ fanout, n int }{{512, 1800}, {1024, 3500}} {
+		st := NewStore()
+		es := make([]entrySpec, c.n)
+		for i := range es {
+			es[i] = entryFor(fmt.Sprintf("entry-%05d", i), 0)
+		}
+		root, _, err := buildSharded(st, es, c.fanout)
+		if err != nil {
+			t.Fatal(err)
+		}
+		tree, err := st.ShardTree(root)
+		if err != nil {
+			t.Fatal(err)
+		}
+		shards := tree.ShardsPreOrder()
+		if len(shards) <= 256 {
+			t.Fatalf("harness: only %d child shards at fanout %d with %d entries", len(shards), c.fanout, c.n)
+		}
+		ls := st.LinkSystem()
+		history := func() (first, all []cid.Cid) {
+			rn, err := loadReified(ls, root, "unixfs")
+			if err != nil {
+				t.Fatal(err)
+			}
+			st.ResetLogs()
+			walk := func() {
+				k := 0
+				for it := rn.MapIterator(); !it.Done(); k++ {
+					if _, _, err := it.Next(); err != nil {
+						t.Fatalf("C20: fanout %d, %d entries: iteration: %v", c.fanout, c.n, err)
+					}
+				}
+				if k != c.n {
+					t.Fatalf("C20: fanout %d: iteration yielded %d of %d entries", c.fanout, k, c.n)
+				}
+			}
+			walk()
+			first = st.ReadLog()
+			walk()
+			if l := rn.Length(); l != int64(c.n) {
+				t.Fatalf("C20: fanout %d: Length() = %d, want %d", c.fanout, l, c.n)
+			}
+			for i := 0; i < c.n; i += 37 {
+				if _, err := rn.LookupByString(es[i].Name); err != nil {
+					t.Fatalf("C20: fanout %d: lookup of %q: %v", c.fanout, es[i].Name, err)
+				}
+			}
+			walk()
+			return first, st.ReadLog()
+		}
+		first, all := history()
+		if !slices.Equal(firstOccurrences(first), firstOccurrences(shards)) {
+			t.Fatalf("C20: fanout %d, %d entries, %d child shards: the first full iteration requested %d blocks, not the depth-first walk", c.fanout, c.n, len(shards), len(first))
+		}
+		for run := 2; run <= 4; run++ {
+			_, again := history()
+			if !slices.Equal(all, again) {
+				t.Fatalf("C20: fanout %d, %d entries, %d child shards: the same history (iterate, iterate, Length, %d lookups, iterate) on a fresh node requested %d blocks in run 1 and %d blocks in run %d, first difference at request #%d: the request sequence is not repeatable", c.fanout, c.n, len(shards), (c.n+36)/37, len(all), len(again), run, firstCidDiff(all, again))
+			}
+		}
+	}
+}
+
+func firstCidDiff(a, b []cid.Cid) int {
+	for i := 0; i < len(a) && i < len(b); i++ {
+		if a[i] != b[i] {
+			return i + 1
+		}
+	}
+	return min(len(a), len(b)) + 1
 }
